@@ -114,7 +114,7 @@ def minimise(spec, harness, model, line, kind, budget=300, known=None):
 
 
 def write_replay(pid, seed, n, obj):
-    path = os.path.join(OUT_DIR, "replay", "%s-seed%d-%d.json" % (pid, seed, n))
+    path = os.path.join(OUT_DIR, "replay", "%s-seed%d-p%d-%d.json" % (pid, seed, os.getpid(), n))
     write_json(path, obj)
     return path
 
